@@ -13,6 +13,48 @@ from . import _agg
 m = Poly.sym("m")
 
 
+def _call_time_configuration(index, ctx, names):
+    """norm_eps / reg_eps / solver are public attributes of the weighting (repr shows them, users re-assign them): what forward computes with
+    must be the attribute read at call time, not a copy the constructor took. A constructor parameter stored verbatim as a public attribute
+    AND captured in another field (a functools.partial, a derived value) that forward uses is such a copy."""
+    import ast
+
+    from ..report import norm_text
+
+    ctx.rule("R5", "the configuration forward computes with is read when forward runs: no constructor parameter that is kept as a public attribute is also frozen into another "
+                   "field (a partial, a pre-computed value) that forward uses instead")
+    for name in names:
+        cls = _agg.weighting_of(index, name)
+        if cls is None:
+            continue
+        ini, fwd = cls.lookup("__init__"), cls.lookup("forward")
+        if ini is None or fwd is None:
+            continue
+        params = {a.arg for a in ini[1].node.args.args[1:]}
+        stores_ = [(t.attr, a.value) for a in ast.walk(ini[1].node) if isinstance(a, ast.Assign) and len(a.targets) == 1 for t in [a.targets[0]]
+                   if isinstance(t, ast.Attribute) and isinstance(t.value, ast.Name) and t.value.id == "self"]
+        public = {f: v.id for f, v in stores_ if isinstance(v, ast.Name) and v.id in params and not f.startswith("_")}
+        reached, todo = set(), ["forward"]
+        while todo:
+            m_ = todo.pop()
+            r_ = cls.lookup(m_)
+            if m_ in reached or r_ is None:
+                continue
+            reached.add(m_)
+            todo += [x.func.attr for x in ast.walk(r_[1].node) if isinstance(x, ast.Call) and isinstance(x.func, ast.Attribute) and isinstance(x.func.value, ast.Name) and x.func.value.id == "self"]
+        read = {x.attr for m_ in reached for x in ast.walk(cls.lookup(m_)[1].node) if isinstance(x, ast.Attribute) and isinstance(x.value, ast.Name) and x.value.id == "self"}
+        bad = [(f, v, sorted({x.id for x in ast.walk(v) if isinstance(x, ast.Name)} & set(public.values()))) for f, v in stores_
+               if f in read and not (isinstance(v, ast.Name) and v.id in params) and ({x.id for x in ast.walk(v) if isinstance(x, ast.Name)} & set(public.values()))]
+        key = f"{name}: forward reads its configuration at call time"
+        if bad:
+            f, v, ps = bad[0]
+            pubs = [pf for pf, pp in public.items() if pp in ps]
+            ctx.violated("R5", key, f"the constructor freezes {ps} into self.{f} = `{norm_text(v)[:70]}`, which forward uses, while the same value stays visible and assignable as "
+                         f"self.{pubs[0]}: after `aggregator.weighting.{pubs[0]} = ...` repr() shows the new value and the projection is still computed with the old one", ini[1].loc(v))
+        else:
+            ctx.ok("R5", key, f"public configuration {sorted(public)} is not duplicated into fields forward uses", ini[1].loc())
+
+
 def check(index, ctx):
     A, by_class = _agg.analysis(index)
     ctx.rule("R1", "norm_eps is the operand compared (<) against the largest singular value of the raw matrix (degree 1, from svd) and nothing else; "
@@ -25,6 +67,7 @@ def check(index, ctx):
              "from factors already divided by the largest singular value (J·Jᵀ formed first overflows for finite inputs of large magnitude, whatever it is divided by afterwards)")
     names = _agg.classes_named(index, ["UPGrad", "DualProj"], ctx, "R1")
     W_UP = _agg.weighting_of(index, "UPGrad")
+    _call_time_configuration(index, ctx, names)
     n = 0
     for name in names:
         cls = by_class[name][0].cls
@@ -67,6 +110,11 @@ def check(index, ctx):
                 good = [e for e in thr if e["kind"] == "scale_branch" and e.get("left") == "1" and e.get("right_origin") == ["norm_eps"] and e.get("op") in ("Lt", "LtE")
                         and any(o.startswith("svd_S#") for o in e.get("left_origin", [])) and (maxes & set(e.get("left_origin", [])))]
                 svd_raw = any(e["kind"] == "sop" and e["sop"] == "svd_S" and e["raw"] for e in ev)
+                incl = [e for e in good if e.get("op") == "LtE"]
+                if incl:
+                    ctx.violated("R1", f"{name}: norm_eps is a strict threshold", f"`{incl[0]['text'][:70]}` treats a largest singular value EQUAL to norm_eps as below it (an inclusive test: `<=`, "
+                                 "or isclose(s, 0, atol=norm_eps)): for s == norm_eps the Gramian is zeroed and J^T u is returned although the statement asks for the projection whenever s >= norm_eps", incl[0]["loc"])
+                    continue
                 ok = len(thr) >= 1 and len(good) == len(thr) and svd_raw
                 why = ""
                 if not thr:
